@@ -235,7 +235,18 @@ func (a *api4) Datagram(id, xid int, kind string) []byte {
 	if id%5 == 0 { // a datagram that fills the client's read buffer exactly
 		padTo4(p, nclient4.MaxMessageSize)
 	}
-	return p.ToBytes()
+	b := p.ToBytes()
+	if id%3 == 1 {
+		// servers that stop right after the End option (no padding to the 300 octets of BOOTP): as good a datagram as any
+		e := len(b)
+		for e > 241 && b[e-1] == 0 {
+			e--
+		}
+		if b[e-1] == 255 {
+			b = b[:e]
+		}
+	}
+	return b
 }
 
 // padTo4 adds opaque options until the packet encodes to exactly n bytes (the packet must be at least 3 bytes short)
